@@ -376,6 +376,65 @@ class Scenario(apiworld.ApiWorld):
         return repr(([(round(r[0], 3), r[2]) for r in self.console.requests if r[0] > self.t_init][-8:], len(self.net.conns)))
 
 
+def deadline_in_outage_jobs():
+    return [(gen, down, cmd_before, up_after, n)
+            for gen in (4, 5) for down in (100.0, 270.0, 295.0) for cmd_before in (29.0, 10.0, 1.0)
+            for up_after in (1.0, 10.0, 40.0) for n in (0, 1, 9, 10) if POLL - cmd_before >= down]
+
+
+def run_deadline_in_outage(job):
+    """The 300 s deadline of the silence poll falls INSIDE an outage, with n commands (up to a full retry queue) buffered
+    shortly before it.  Nothing can be asked then; the link returns, the client refreshes, and from there on the console
+    ignores group status requests for 700 s: the poll goes on (AT4), every 300 s, and when the console answers again the
+    model converges.  Scripted; the grid of (link lost at, commands buffered n seconds before the deadline, link back n
+    seconds after it, number of commands) is enumerated."""
+    import pyairtouch as A
+    gen, down, cmd_before, up_after, n = job
+    w = Scenario({"gen": gen, "poll": True, "macro": True})
+    label = (f"at{gen}: link lost {down:.0f} s after init, {n} commands buffered {cmd_before:.0f} s before the poll deadline, "
+             f"link back {up_after:.0f} s after it")
+    t0 = w.t_init
+
+    def upto(t):
+        if t > w.loop.time():
+            w.do(("wait", t - w.loop.time()))
+        w.loop.settle()
+    upto(t0 + down)
+    w.do(("eof",))
+    w.loop.settle()
+    upto(t0 + POLL - cmd_before)
+    ac = sorted(w.at.air_conditioners, key=lambda a: a.ac_id)[0]
+    for i in range(n):
+        w.call(lambda i=i: ac.set_power(A.AcPowerControl.TURN_ON if i % 2 else A.AcPowerControl.TURN_OFF), f"burst{i}")
+    w.loop.settle()
+    upto(t0 + POLL + up_after)
+    # from here on the network behaves (the heartbeat that could not be sent at its own 300 s mark costs this first
+    # connection its life 30 s later: the next attempt is accepted like any other)
+    w.net.auto = "accept"
+    w.net.resolve_all(True)
+    w.loop.settle()
+    upto(w.loop.time() + 3.0)
+    if not w.net.live():
+        return (f"at{gen}:deadline-in-outage:reconnects", f"{label}: no connection 3 s after the network accepts again")
+    v = w.step_check()
+    if v:
+        return (f"at{gen}:deadline-in-outage:{v['clause']}", f"{label}: {v['message']}")
+    w.mute_gs = True
+    upto(w.loop.time() + 700.0)
+    v = w.step_check()
+    if v:
+        return (f"at{gen}:deadline-in-outage:{v['clause']}", f"{label}; then 700 s without group status: {v['message']}")
+    w.mute_gs = False
+    upto(w.loop.time() + 301.0)
+    v = w.step_check()
+    if v:
+        return (f"at{gen}:deadline-in-outage:{v['clause']}", f"{label}; console answers again: {v['message']}")
+    rep = w.loop_reports()
+    if rep:
+        return (f"at{gen}:deadline-in-outage:loop-report", f"{label}: {rep[:1]}")
+    return (None, len([r for r in w.console.requests if r[2] == "req-zone-status"]))
+
+
 def run(tier, seed, part=None):
     chk = runner.Check("C14", tier, seed, "model_checking")
     chk.trusted_base = ["pvmc.console.SimConsole / pvmc.ref", "pvmc.pubmodel", "pvmc.vloop, pvmc.simnet"]
@@ -412,5 +471,14 @@ def run(tier, seed, part=None):
         params = {"gen": gen, "notify_clause": True, "bad_kinds": [], "raising": False}
         res = explorer.explore("pvmc.props.c07:Scenario", params, depth, dev, time_cap=cap, seed=seed, label=f"at{gen}/socket-notifications")
         chk.add_explorer(f"at{gen}/socket-notifications", "pvmc.props.c07:Scenario", params, res, {"depth": depth, "deviations": dev})
+    jobs = deadline_in_outage_jobs()
+    polls = 0
+    for job, (sig, msg) in zip(jobs, explorer.pool().map(run_deadline_in_outage, jobs, chunksize=2)):
+        chk.counters["executions"] += 1
+        if sig:
+            chk.violation(sig, msg, {"kind": "input", "module": "pvmc.props.c14", "deadline_in_outage": list(job), "message": msg})
+        else:
+            polls += msg
+    chk.parts.append({"scenario": "poll deadline inside an outage with a (nearly) full retry queue", "runs": len(jobs), "zone_status_requests_seen": polls})
     chk.add_audit(SPEC, {"gen": 4, "macro": True, "max_tick": 2, "max_loss": 1, "max_edit": 1, "max_adv": 1, "poll": True}, 4, 0, limit=3000 if tier == "thorough" else 400)
     return chk.finish()
